@@ -11,12 +11,16 @@
    NOT proved: anything about the OpenSSL-backed back end; ECDH symmetry and correctness of
    the Jacobian arithmetic (needs the elliptic-curve group law).
    This file contains only statements, each closed by [exact]. *)
+From Coq Require Import String.
 From Coq Require Import ZArith List Bool.
 From BV Require Import Gen.C14Tables Model.CryptoBytes Model.Aes Model.Cmac Model.SmToolbox.
 From BV Require Import Model.P256 Model.CryptoBuiltin.
 From BV Require Import Proofs.CryptoBytes Proofs.Cmac Proofs.SmToolbox Proofs.P256 Proofs.Aes.
-From BV Require Import Proofs.AesSpec Proofs.P256Inv Proofs.BuiltinSpec.
+From BV Require Import Proofs.AesSpec Proofs.P256Inv Proofs.BuiltinSpec Proofs.BuiltinCmacSpec.
+From BV Require Import Model.PyAst Gen.C14Source.
+From BV Require Import Proofs.PySourceToolbox Proofs.PySourceEc Proofs.PySourceCmac Proofs.PySourceRpa Proofs.PySourceExpected.
 Import ListNotations.
+Open Scope list_scope.
 Open Scope Z_scope.
 
 (* ------------------------------------------------------------------ AES-CMAC *)
@@ -300,6 +304,222 @@ Theorem C14_builtin_s1_is_core_spec : forall k r1 r2,
   rev (b_s1 k r1 r2) = spec_s1 e_spec (rev k) (rev r1) (rev r2).
 Proof. exact builtin_s1_is_core_spec. Qed.
 Print Assumptions C14_builtin_s1_is_core_spec.
+
+(* ------------------------------------------------------------------ the resolver is a pure function *)
+(* resolve returns the FIRST key whose hash of the address's prand equals the address's hash part;
+   a key for which they differ never matches (the deterministic content of "does not resolve under
+   an unrelated key"); in a sequence of calls on one resolver every result is that of its call. *)
+Theorem C14_rpa_unrelated_key_rejected : forall e k addr,
+  ah e k (py_slice addr 3 6) <> py_slice addr 0 3 -> rpa_matches e k addr = false.
+Proof. exact rpa_unrelated_key_rejected. Qed.
+Print Assumptions C14_rpa_unrelated_key_rejected.
+
+Theorem C14_resolve_first_match : forall e irks addr,
+  match resolve e irks addr with
+  | Some i => rpa_matches e (nth i irks []) addr = true /\ (i < length irks)%nat /\
+              forall j, (j < i)%nat -> rpa_matches e (nth j irks []) addr = false
+  | None => forall j, (j < length irks)%nat -> rpa_matches e (nth j irks []) addr = false
+  end.
+Proof. exact resolve_first_match. Qed.
+Print Assumptions C14_resolve_first_match.
+
+Theorem C14_resolve_history_pure : forall e irks addrs i addr,
+  nth_error addrs i = Some addr ->
+  nth_error (resolve_history e irks addrs) i = Some (resolve e irks addr).
+Proof. exact resolve_history_pure. Qed.
+Print Assumptions C14_resolve_history_pure.
+
+(* ------------------------------------------------------------------ CMAC family, end to end *)
+(* f4, f5, f6, g2, h6, h7 computed with builtin.aes_cmac equal the Core formulas over RFC 4493
+   AES-CMAC over FIPS-197 AES-128 ([cmac_fips]), for arguments of the Security Manager sizes. *)
+Theorem C14_builtin_cmac_is_rfc4493_over_fips197 : forall m k,
+  length k = 16%nat -> bytes_ok k = true -> bytes_ok m = true -> len m <= max_size ->
+  cmac_total m k = cmac_fips m k /\ good_block (cmac_total m k).
+Proof. exact cmac_total_is_fips. Qed.
+Print Assumptions C14_builtin_cmac_is_rfc4493_over_fips197.
+
+Theorem C14_builtin_f4_is_core_spec : forall u v x z,
+  length u = 32%nat -> bytes_ok u = true -> length v = 32%nat -> bytes_ok v = true ->
+  good_block x -> length z = 1%nat -> bytes_ok z = true ->
+  rev (b_f4 u v x z) = spec_f4 cmac_fips (rev u) (rev v) (rev x) (rev z).
+Proof. exact builtin_f4_is_core_spec. Qed.
+Print Assumptions C14_builtin_f4_is_core_spec.
+
+Theorem C14_builtin_f5_is_core_spec : forall w n1 n2 a1 a2,
+  length w = 32%nat -> bytes_ok w = true -> good_block n1 -> good_block n2 ->
+  length a1 = 7%nat -> bytes_ok a1 = true -> length a2 = 7%nat -> bytes_ok a2 = true ->
+  (rev (fst (b_f5 w n1 n2 a1 a2)), rev (snd (b_f5 w n1 n2 a1 a2))) =
+  spec_f5 cmac_fips (rev w) (rev n1) (rev n2) (rev a1) (rev a2).
+Proof. exact builtin_f5_is_core_spec. Qed.
+Print Assumptions C14_builtin_f5_is_core_spec.
+
+Theorem C14_builtin_f6_is_core_spec : forall w n1 n2 r io_cap a1 a2,
+  good_block w -> good_block n1 -> good_block n2 -> good_block r ->
+  length io_cap = 3%nat -> bytes_ok io_cap = true ->
+  length a1 = 7%nat -> bytes_ok a1 = true -> length a2 = 7%nat -> bytes_ok a2 = true ->
+  rev (b_f6 w n1 n2 r io_cap a1 a2) =
+  spec_f6 cmac_fips (rev w) (rev n1) (rev n2) (rev r) (rev io_cap) (rev a1) (rev a2).
+Proof. exact builtin_f6_is_core_spec. Qed.
+Print Assumptions C14_builtin_f6_is_core_spec.
+
+Theorem C14_builtin_g2_is_core_spec : forall u v x y,
+  length u = 32%nat -> bytes_ok u = true -> length v = 32%nat -> bytes_ok v = true ->
+  good_block x -> good_block y ->
+  b_g2 u v x y = spec_g2 cmac_fips (rev u) (rev v) (rev x) (rev y).
+Proof. exact builtin_g2_is_core_spec. Qed.
+Print Assumptions C14_builtin_g2_is_core_spec.
+
+Theorem C14_builtin_h6_is_core_spec : forall w key_id,
+  good_block w -> length key_id = 4%nat -> bytes_ok key_id = true ->
+  rev (b_h6 w key_id) = spec_h6 cmac_fips (rev w) key_id.
+Proof. exact builtin_h6_is_core_spec. Qed.
+Print Assumptions C14_builtin_h6_is_core_spec.
+
+Theorem C14_builtin_h7_is_core_spec : forall salt w,
+  good_block salt -> good_block w ->
+  rev (b_h7 salt w) = spec_h7 cmac_fips salt (rev w).
+Proof. exact builtin_h7_is_core_spec. Qed.
+Print Assumptions C14_builtin_h7_is_core_spec.
+
+(* ------------------------------------------------------------------ the models are the meaning of the source *)
+(* Gen/C14Source.v holds the current source of the anchored functions as terms of a Python-subset
+   syntax (regenerated on every run, fail closed).  Running those terms in the interpreter of
+   Model/PyAst.v gives the hand-written models: an edit of argument order, a reversal, a slice
+   bound, an operator, a guard or the order of statements breaks the theorem for that function. *)
+Theorem C14_toolbox_matches_source : forall e aes_cmac tokens,
+  (forall k r, PySourceToolbox.run e aes_cmac tokens src_ah_params src_ah [VBytes k; VBytes r] = VBytes (ah e k r)) /\
+  (forall k r preq pres iat rat ia ra,
+     PySourceToolbox.run e aes_cmac tokens src_c1_params src_c1
+       [VBytes k; VBytes r; VBytes preq; VBytes pres; VInt iat; VInt rat; VBytes ia; VBytes ra] =
+     match c1 e k r preq pres iat rat ia ra with Some o => VBytes o | None => VErr end) /\
+  (forall k r1 r2, PySourceToolbox.run e aes_cmac tokens src_s1_params src_s1 [VBytes k; VBytes r1; VBytes r2] = VBytes (s1 e k r1 r2)) /\
+  (forall u v x z, PySourceToolbox.run e aes_cmac tokens src_f4_params src_f4 [VBytes u; VBytes v; VBytes x; VBytes z] =
+     VBytes (f4 aes_cmac u v x z)) /\
+  (forall w n1 n2 a1 a2, PySourceToolbox.run e aes_cmac tokens src_f5_params src_f5 [VBytes w; VBytes n1; VBytes n2; VBytes a1; VBytes a2] =
+     VTuple [VBytes (fst (f5 aes_cmac w n1 n2 a1 a2)); VBytes (snd (f5 aes_cmac w n1 n2 a1 a2))]) /\
+  (forall w n1 n2 r io_cap a1 a2,
+     PySourceToolbox.run e aes_cmac tokens src_f6_params src_f6
+       [VBytes w; VBytes n1; VBytes n2; VBytes r; VBytes io_cap; VBytes a1; VBytes a2] = VBytes (f6 aes_cmac w n1 n2 r io_cap a1 a2)) /\
+  (forall u v x y, PySourceToolbox.run e aes_cmac tokens src_g2_params src_g2 [VBytes u; VBytes v; VBytes x; VBytes y] =
+     VInt (g2 aes_cmac u v x y)) /\
+  (forall w key_id, PySourceToolbox.run e aes_cmac tokens src_h6_params src_h6 [VBytes w; VBytes key_id] = VBytes (h6 aes_cmac w key_id)) /\
+  (forall salt w, PySourceToolbox.run e aes_cmac tokens src_h7_params src_h7 [VBytes salt; VBytes w] = VBytes (h7 aes_cmac salt w)) /\
+  (forall x y, PySourceToolbox.run e aes_cmac tokens src_xor_params src_xor [VBytes x; VBytes y] =
+     match xor_assert x y with Some r => VBytes r | None => VErr end) /\
+  (forall b, PySourceToolbox.run e aes_cmac tokens src_reverse_params src_reverse [VBytes b] = VBytes (rev b)).
+Proof. exact toolbox_matches_source. Qed.
+Print Assumptions C14_toolbox_matches_source.
+
+Theorem C14_generate_prand_matches_source : forall e aes_cmac tokens, length tokens = 6%nat ->
+  PySourceToolbox.run e aes_cmac tokens src_generate_prand_params src_generate_prand [] = VBytes (prand_of tokens).
+Proof. exact generate_prand_matches_source. Qed.
+Print Assumptions C14_generate_prand_matches_source.
+
+(* _JacobianPoint.double / __add__ / to_affine, _EllipticCurve.is_on_curve / ecdh_shared_secret,
+   EccKey.dh, for any curve whose modulus is positive (written Z.pos pp) and fits in 32 bytes *)
+Theorem C14_jac_double_matches_source : forall pp a b n gx gy P,
+  PySourceEc.run pp a b n gx gy (("self"%string, jacv P) :: jac_env pp a b n gx gy P)
+    src_jac_double_params src_jac_double [jacv P] = jacv (jac_double (PySourceEc.c pp a b n gx gy) P).
+Proof. exact jac_double_matches_source. Qed.
+Print Assumptions C14_jac_double_matches_source.
+
+Theorem C14_jac_add_matches_source : forall pp a b n gx gy P Q,
+  PySourceEc.run pp a b n gx gy (("self"%string, jacv P) :: jac_env pp a b n gx gy P)
+    src_jac_add_params src_jac_add [jacv P; jacv Q] = jacv (jac_add (PySourceEc.c pp a b n gx gy) P Q).
+Proof. exact jac_add_matches_source. Qed.
+Print Assumptions C14_jac_add_matches_source.
+
+Theorem C14_jac_to_affine_matches_source : forall pp a b n gx gy P,
+  PySourceEc.run pp a b n gx gy (("self"%string, jacv P) :: jac_env pp a b n gx gy P)
+    src_jac_to_affine_params src_jac_to_affine [jacv P] = affv (to_affine (PySourceEc.c pp a b n gx gy) P).
+Proof. exact jac_to_affine_matches_source. Qed.
+Print Assumptions C14_jac_to_affine_matches_source.
+
+Theorem C14_is_on_curve_matches_source : forall pp a b n gx gy x y,
+  PySourceEc.run pp a b n gx gy (("self"%string, VStr "curve"%string) :: curve_env pp a b n gx gy)
+    src_is_on_curve_params src_is_on_curve [VStr "curve"%string; VTuple [VInt x; VInt y; VBool false]] =
+  VBool (on_curve (PySourceEc.c pp a b n gx gy) x y).
+Proof. exact is_on_curve_matches_source. Qed.
+Print Assumptions C14_is_on_curve_matches_source.
+
+Theorem C14_ecdh_shared_secret_matches_source : forall pp a b n gx gy, Z.pos pp <= 2 ^ 256 -> forall d x y,
+  PySourceEc.run pp a b n gx gy (("self"%string, VStr "curve"%string) :: curve_env pp a b n gx gy)
+    src_ecdh_shared_secret_params src_ecdh_shared_secret
+    [VStr "curve"%string; VInt d; VTuple [VInt x; VInt y; VBool false]] = dhv (ecdh (PySourceEc.c pp a b n gx gy) d x y).
+Proof. exact ecdh_shared_secret_matches_source. Qed.
+Print Assumptions C14_ecdh_shared_secret_matches_source.
+
+Theorem C14_ecc_dh_matches_source : forall pp a b n gx gy d xb yb,
+  PySourceEc.run pp a b n gx gy (("self"%string, VStr "key"%string) :: key_env d) src_ecc_dh_params src_ecc_dh
+    [VStr "key"%string; VBytes xb; VBytes yb] = dhv (ecc_dh (PySourceEc.c pp a b n gx gy) d xb yb).
+Proof. exact ecc_dh_matches_source. Qed.
+Print Assumptions C14_ecc_dh_matches_source.
+
+(* _CMAC.digest (with its truthiness guard on _last_pt), _CMAC._update and _shift_bytes *)
+Theorem C14_cmac_digest_matches_source : forall E s,
+  result_of (PySourceCmac.run E 40 (cmac_env E s) src_cmac_digest_params src_cmac_digest [VStr "cmac"%string]) =
+  match digest E s with Some t => VBytes t | None => VErr end.
+Proof. exact cmac_digest_matches_source. Qed.
+Print Assumptions C14_cmac_digest_matches_source.
+
+Theorem C14_cmac_update_aligned_matches_source : forall E s data, (len data mod 16 =? 0) = true ->
+  state_in (env_of (PySourceCmac.run E 40 (cmac_env E s) src_cmac_update_aligned_params src_cmac_update_aligned
+                      [VStr "cmac"%string; VBytes data]))
+           (update_aligned E s data).
+Proof. exact cmac_update_aligned_matches_source. Qed.
+Print Assumptions C14_cmac_update_aligned_matches_source.
+
+Theorem C14_shift_bytes_matches_source : forall E bs x, bytes_ok bs = true -> 0 <= x < 256 ->
+  result_of (PySourceCmac.run E 10 [] src_shift_bytes_params src_shift_bytes [VBytes bs; VInt x]) =
+  VBytes (shift_bytes bs x).
+Proof. exact shift_bytes_matches_source. Qed.
+Print Assumptions C14_shift_bytes_matches_source.
+
+(* Address.generate_private_address (resolvable branch), Address.is_resolvable, verify_rpa_with_irk *)
+Theorem C14_generate_private_address_matches_source : forall e tokens irk, (len irk =? 0) = false ->
+  PySourceRpa.run e tokens class_env src_generate_private_address_params src_generate_private_address
+    [VStr "cls"%string; VBytes irk] = VTuple [VBytes (rpa_generate e irk tokens); VInt 1].
+Proof. exact generate_private_address_resolvable_matches_source. Qed.
+Print Assumptions C14_generate_private_address_matches_source.
+
+Theorem C14_is_resolvable_matches_source : forall e tokens t b, length b = 6%nat ->
+  PySourceRpa.run e tokens
+    [("self.address_type"%string, VInt t); ("self.RANDOM_DEVICE_ADDRESS"%string, VInt 1); ("self.address_bytes"%string, VBytes b)]
+    src_is_resolvable_params src_is_resolvable [VStr "address"%string] = VBool ((t =? 1) && is_resolvable_bytes b).
+Proof. exact is_resolvable_matches_source. Qed.
+Print Assumptions C14_is_resolvable_matches_source.
+
+Theorem C14_verify_rpa_with_irk_matches_source : forall e tokens addr irk,
+  PySourceRpa.run e tokens [] src_verify_rpa_with_irk_params src_verify_rpa_with_irk [VBytes addr; VBytes irk] =
+  VBool (list_eqb (py_slice (ah e irk (py_from addr 3)) 0 3) (py_slice addr 0 3)).
+Proof. exact verify_rpa_with_irk_matches_source. Qed.
+Print Assumptions C14_verify_rpa_with_irk_matches_source.
+
+(* Functions whose meaning is not derived from the translated source - _CMAC.__init__ / update
+   (interpreted through their callees), aes_cmac, e - must be syntactically the recorded ones;
+   functions with loops (_AES, _ECB.encrypt, _CBC.encrypt, __mul__, AddressResolver.resolve, ...)
+   and the field sets of _Point / _JacobianPoint / EccKey / _CMAC / AddressResolver must have the
+   recorded digest of their normalised AST.  (A per-object cache added to EccKey.dh or to
+   AddressResolver.resolve, or _last_pt kept as an int, breaks one of these or a theorem above.) *)
+Theorem C14_cmac_init_source_unchanged : src_cmac_init = expected_cmac_init.
+Proof. exact cmac_init_source_unchanged. Qed.
+Print Assumptions C14_cmac_init_source_unchanged.
+
+Theorem C14_cmac_update_source_unchanged : src_cmac_update = expected_cmac_update.
+Proof. exact cmac_update_source_unchanged. Qed.
+Print Assumptions C14_cmac_update_source_unchanged.
+
+Theorem C14_builtin_aes_cmac_source_unchanged : src_builtin_aes_cmac = expected_builtin_aes_cmac.
+Proof. exact builtin_aes_cmac_source_unchanged. Qed.
+Print Assumptions C14_builtin_aes_cmac_source_unchanged.
+
+Theorem C14_builtin_e_source_unchanged : src_builtin_e = expected_builtin_e.
+Proof. exact builtin_e_source_unchanged. Qed.
+Print Assumptions C14_builtin_e_source_unchanged.
+
+Theorem C14_loop_functions_source_unchanged : source_fingerprints = expected_fingerprints.
+Proof. exact loop_functions_source_unchanged. Qed.
+Print Assumptions C14_loop_functions_source_unchanged.
 
 (* ------------------------------------------------------------------ modular inverse / to_affine *)
 Theorem C14_modinv_correct : forall z p x, 0 < p ->
